@@ -74,7 +74,7 @@ func (c *Ctx) errorEdgeFatal(fi *load.FuncInfo, g *cfgx.Graph, call *ast.CallExp
 func c02(c *Ctx) {
 	r := c.R
 	r.Explanation = "Partial: six structural clauses of FSM.Snapshot/Apply/Restore and robustSnapshot.Persist, each a necessary condition for compaction not to lose or duplicate entries. (N1) every removal from the log copy or the output store happens inside the compaction loop, after the same iteration's entry was folded into the snapshot state, only for entries not newer than the horizon, and names exactly that entry; (N2) the index under which the folded state is serialized and filed is (re)defined after the last fold on every path; (N3) Apply persists a command entry into the irclog store (fatal on error) before applying it; (N4) Restore closes and wipes the old log copy, creates fresh store/server/output and publishes them before decoding, and the decoders load the state record and apply+store every other record; (N5) Persist and decodeProtobuf agree on the stream container; (N6) the horizon depends on the session expiration, the sweep interval and the canary override. Equality of states over histories is not decided."
-	r.Rules = []string{"C02.N1 fold-before-drop", "C02.N2 fresh index after fold", "C02.N3 persist-before-apply", "C02.N4 wipe-before-load", "C02.N5 stream agreement", "C02.N6 horizon dependence", "C02.N7 error and iterator discipline", "C02.N8 lock hygiene and key buffers"}
+	r.Rules = []string{"C02.N1 fold-before-drop", "C02.N2 fresh index after fold", "C02.N3 persist-before-apply", "C02.N4 wipe-before-load", "C02.N5 stream agreement", "C02.N6 horizon dependence", "C02.N7 error and iterator discipline", "C02.N8 lock hygiene and key buffers", "C02.N9 decisive errors stay decisive"}
 
 	snap := c.MustFunc("main.(*FSM).Snapshot")
 	arm := c.MustFunc("main.(*FSM).applyRobustMessage")
@@ -452,6 +452,15 @@ func c02(c *Ctx) {
 		c.lockHygiene("C02.N8", ms, "the next Apply / Restore / Snapshot blocks forever", "after which the state machine blocks forever")
 		r.Ok("C02.N8", "main", "uses of key buffers inspected", "-", itoa(nKeys))
 	}
+	// ---------- N9 errors that are decisive today stay decisive
+	c.errorDispositions("C02.N9", []string{"main"}, func(fn string) bool {
+		for _, nm := range []string{"main.(*FSM).Snapshot", "main.(*FSM).Restore", "main.(*FSM).decodeProtobuf", "main.(*FSM).decodeJson", "main.(*robustSnapshot).Persist", "main.(*robustSnapshot).persistJSON", "main.writeLenPrefixed", "main.(*FSM).Apply", "main.(*FSM).applyProto", "main.sendMessages"} {
+			if fn == nm {
+				return true
+			}
+		}
+		return false
+	}, "an entry is applied without having been persisted, a snapshot is reported written or loaded although a step failed, or replies are taken for stored")
 	// ---------- N7 error and iterator discipline of the functions that fold, write and load snapshots
 	{
 		nErr, nPos := 0, 0
